@@ -11,6 +11,7 @@
 
 mod multi;
 mod pure;
+mod frag;
 mod socket;
 
 use serde_json::json;
@@ -68,6 +69,11 @@ fn main() {
             }
             Some("socket") => {
                 for (sig, det) in socket::replay(d) {
+                    ctx.violation("replay", &sig, det);
+                }
+            }
+            Some("socket-fragmented") => {
+                for (sig, det) in frag::replay(d) {
                     ctx.violation("replay", &sig, det);
                 }
             }
@@ -143,6 +149,9 @@ fn main() {
 
     // ---- leg (c): RemoteTask over a duplex web socket
     socket::run(&ctx);
+
+    // ---- leg (d): fragmented web socket messages, raw frames written by the harness
+    frag::run(&ctx);
 
     ctx.assume("blanks (space, tab) in front of a Recon body are insignificant: the peeler drops all of them; where the written body itself starts with a blank the check verifies that both texts parse to the same value");
     ctx.assume("Unlinked(None) and Unlinked(Some(\"\")) have the same wire form and are not distinguished");
